@@ -58,6 +58,8 @@ def setL := "set i1 s61 i3 i7 i5"
 #guard bad [setL, "so 0"] ["so 1", "file 232f6331362f6f626a2e630a766920310a766920310a"] "persisted-wrong-variables"
 -- the object reference written as something
 #guard bad [setL, "so 1"] ["so 1", "file 232f6331362f6f626a2e630a766920310a7661202261220a766220330a766f20310a766320350a"] "persisted-object-reference"
+-- ... but `vo 0` is right while the variable holds 0 (object never `set`, or cleared by restore_object(file, 0))
+#guard ok ["so 1"] ["so 1", "file 232f6331362f6f626a2e630a766920300a766120300a766220300a766f20300a766320300a"]
 #guard bad [setL, "so 1"] ["so 0", "file none"] "save-object-failed"
 #guard bad [setL, "so 1"] ["so -1", "file none", "tmp-left-behind"] "tmp-left-behind"
 
